@@ -650,7 +650,7 @@ class Quaternion(np.ndarray):
         # standard ndarray constructor, but return an object of type Quaternion.
         obj = super(Quaternion, subtype).__new__(subtype, q.shape, float, q)
         obj.A = q
-        obj.scalar_vector = False if kwargs.get('order', 'H') == 'S' else True
+        obj.scalar_vector = False if str(kwargs.get('order', 'H')).upper() == 'S' else True
         return obj
 
     def __array_finalize__(self, obj):
@@ -2207,7 +2207,7 @@ class QuaternionArray(np.ndarray):
         # QuaternionArray.
         obj = super(QuaternionArray, subtype).__new__(subtype, q.shape, float, q)
         obj.array = q
-        obj.scalar_vector = order == 'H'
+        obj.scalar_vector = str(order).upper() != 'S'     # same rule as Quaternion: scalar-last only for 'S'/'s'
         obj.num_qts = q.shape[0]
         return obj
 
